@@ -359,6 +359,152 @@ def suite_values(exe, tier, seed):
             "samples": samples, "violations": viol}
 
 
+CURVES = {"BN254": 254, "BLS12_381": 255, "GOLDILOCKS": 64}
+# Circomlib's spelling where the documentation table differs in case (circomlib/circuits/pointbits.circom)
+CIRCOMLIB_SPELLING = {"Bits2Point_strict": "Bits2Point_Strict", "Point2Bits_strict": "Point2Bits_Strict"}
+
+def documented_table(repo):
+    """{template name (Circomlib spelling): set of curves marked `x`} from doc/analysis_passes.md"""
+    import re
+    rows = {}
+    for l in open(os.path.join(repo, "doc", "analysis_passes.md")):
+        m = re.match(r"^\|\s*`(\w+)`\s*\|([^|]*)\|([^|]*)\|\s*$", l)
+        if m:
+            name = CIRCOMLIB_SPELLING.get(m.group(1), m.group(1))
+            rows[name] = {c for c, cell in (("GOLDILOCKS", m.group(2)), ("BLS12_381", m.group(3))) if "x" in cell}
+    return rows
+
+
+def suite_curves(exe, tier, seed):
+    import re
+    repo = os.environ.get("VERIF_REPO", "/repo")
+    viol, samples = [], []
+    evals = nontrivial = 0
+    d = tempfile.mkdtemp(prefix="vx-e2e-")
+
+    def add(ob, inp, what):
+        if len(viol) < 20:
+            viol.append({"unit": "e2e", "fn": "curve-dependent passes", "obligation": f"e2e|curves|{ob}", "props": ["C11"], "input": inp,
+                         "what": what, "replay": "python3 run/e2e.py curves quick 0"})
+    try:
+        table = documented_table(repo)
+        if len(table) < 20:
+            raise RuntimeError("documented table not found in doc/analysis_passes.md")
+        names = sorted(table)
+        near = [n.lower() for n in names[:6]] + [n + "2" for n in names[:4]] + sorted(CIRCOMLIB_SPELLING) + ["Num2Bits", "LessThan", "Poseidon2"]
+        allnames = names + [n for n in near if n not in table]
+        # ---- (a) the template / curve table
+        src = "pragma circom 2.0.0;\n" + "".join(f"template {n}() {{ signal input a; signal output b; b <== a; }}\n" for n in allnames)
+        src += "template Main() {\n  signal input x; signal output y[%d];\n" % len(allnames)
+        for i, n in enumerate(allnames):
+            src += f"  component c{i} = {n}(); c{i}.a <== x; y[{i}] <== c{i}.b;\n"
+        src += "}\ncomponent main = Main();\n"
+        path = os.path.join(d, "table.circom")
+        open(path, "w").write(src)
+        for curve in CURVES:
+            rc, out, err = run_cli(exe, ["--curve", curve, path], d)
+            flagged = set(re.findall(r"The `(\w+)` template relies on BN254 specific parameters", out))
+            for n in allnames:
+                evals += 1
+                nontrivial += 1
+                want = curve in table.get(n, set())
+                if (n in flagged) != want:
+                    add(f"table:{curve}:{n}", {"curve": curve, "template": n},
+                        f"--curve {curve}: instantiating `{n}` is {'flagged' if n in flagged else 'not flagged'} as BN254-specific, the documented table says {'x' if want else 'no mark'}")
+            if rc not in (0, 1) or "panicked" in err:
+                add(f"table:{curve}:abort", {"curve": curve}, f"the tool aborted (exit {rc}) on the table fixture")
+        samples.append({"case": "table", "templates": len(allnames), "curves": list(CURVES)})
+        # ---- (b) Num2Bits(n) / Bits2Num(n) under the default curve
+        ns = list(range(0, 301)) if tier == "thorough" else [0, 1, 2, 63, 64, 65, 128, 200, 252, 253, 254, 255, 256, 300]
+        lib = ("template Num2Bits(n) { signal input in; signal output out[n]; for (var i = 0; i < n; i++) { out[i] <-- (in >> i) & 1; } }\n"
+               "template Bits2Num(n) { signal input in[n]; signal output out; var lc = 0; for (var i = 0; i < n; i++) { lc += in[i] * (1 << i); } out <-- lc; }\n"
+               "template LessThan(n) { signal input in[2]; signal output out; out <-- in[0] < in[1]; }\n")
+        for tname in ("Num2Bits", "Bits2Num"):
+            lines = ["pragma circom 2.0.0;"] + lib.strip().split("\n") + ["template Main(m) {", "  signal input x;"]
+            where = {}
+            for n in ns + ["m", "m + 1"]:
+                i = len(where)
+                lines.append(f"  component c{i} = {tname}({n});")
+                where[len(lines)] = n
+            lines += ["}", "component main = Main(3);"]
+            path = os.path.join(d, f"{tname}.circom")
+            open(path, "w").write("\n".join(lines) + "\n")
+            rc, out, err = run_cli(exe, [path], d)   # default curve
+            flagged_lines = set()
+            ol = out.split("\n")
+            for k, l in enumerate(ol):
+                if f"Using `{tname}` to convert" in l:
+                    for l2 in ol[k + 1:k + 4]:
+                        m = re.search(r"\.circom:(\d+):\d+", l2)
+                        if m:
+                            flagged_lines.add(int(m.group(1)))
+                            break
+            for ln, n in where.items():
+                evals += 1
+                nontrivial += 1
+                want = not (isinstance(n, int) and n < 254)
+                if (ln in flagged_lines) != want:
+                    add(f"size:{tname}:{n}", {"template": tname, "n": n},
+                        f"default curve: `{tname}({n})` is {'flagged' if ln in flagged_lines else 'not flagged'}; it must be flagged unless n is a compile-time constant smaller than 254")
+            if rc not in (0, 1) or "panicked" in err:
+                add(f"size:{tname}:abort", {}, f"the tool aborted (exit {rc})")
+        # ---- (c) LessThan inputs range-checked by Num2Bits(k): positive iff 2^k - 1 <= p/2, i.e. k < bits(p) - 1
+        for curve, bits in CURVES.items():
+            ks = list(range(0, 301)) if tier == "thorough" else sorted({0, 1, 8, bits - 3, bits - 2, bits - 1, bits, bits + 1, 300})
+            for k in ks:
+                body = (f"pragma circom 2.0.0;\n{lib}template Main() {{\n  signal input a; signal input b; signal output ok;\n"
+                        f"  component n2b[2];\n  n2b[0] = Num2Bits({k});\n  n2b[0].in <== a;\n  n2b[1] = Num2Bits({k});\n  n2b[1].in <== b;\n"
+                        f"  component lt = LessThan(8);\n  lt.in[0] <== a;\n  lt.in[1] <== b;\n  ok <== lt.out;\n}}\ncomponent main = Main();\n")
+                path = os.path.join(d, "lt.circom")
+                open(path, "w").write(body)
+                rc, out, err = run_cli(exe, ["--curve", curve, path], d)
+                evals += 1
+                nontrivial += 1
+                got = len(re.findall(r"needs to be constrained to ensure that it is <= p/2", out))
+                want = 0 if k < bits - 1 else 2
+                if got != want or rc not in (0, 1) or "panicked" in err:
+                    add(f"lessthan:{curve}:{k}", {"curve": curve, "k": k},
+                        f"--curve {curve}: inputs of LessThan range-checked by Num2Bits({k}): {got} inputs reported as not known to be <= p/2, expected {want} (2^k - 1 <= p/2 iff k < {bits - 1}); exit {rc}")
+        # ---- (c') the oracle's arithmetic fact and the prime constants of the source
+        DOC_PRIMES = {"BN254": 21888242871839275222246405745257275088548364400416034343698204186575808495617,
+                      "BLS12_381": 52435875175126190479447740508185965837690552500527637822603658699938581184513,
+                      "GOLDILOCKS": 18446744069414584321}
+        ctext = open(os.path.join(repo, "program_structure", "src", "utils", "constants.rs")).read()
+        lits = {int(x) for x in re.findall(r'"(\d{15,})"', ctext)}
+        for curve, pr in DOC_PRIMES.items():
+            evals += 1
+            nontrivial += 1
+            if pr not in lits:
+                add(f"prime:{curve}", {"curve": curve}, f"the prime of {curve} in the Circom documentation ({pr}) does not occur among the decimal literals of constants.rs")
+            if pr.bit_length() != CURVES[curve] or any(((2 ** k - 1) <= pr // 2) != (k < CURVES[curve] - 1) for k in range(0, 301)):
+                raise RuntimeError("oracle arithmetic is wrong for " + curve)
+        # ---- (d) curve names
+        canon = {}
+        for curve in CURVES:
+            rc, out, err = run_cli(exe, ["--curve", curve, os.path.join(d, "table.circom")], d)
+            canon[curve] = (rc, findings_of(out))
+        spellings = {"BN254": ["bn254", "Bn254", "bN254"], "BLS12_381": ["bls12_381", "Bls12_381", "BLS12_381"], "GOLDILOCKS": ["goldilocks", "Goldilocks", "GoldiLocks"]}
+        for curve, sp in spellings.items():
+            for name in sp:
+                rc, out, err = run_cli(exe, ["--curve", name, os.path.join(d, "table.circom")], d)
+                evals += 1
+                nontrivial += 1
+                if (rc, findings_of(out)) != canon[curve]:
+                    add(f"name:{name}", {"curve": name}, f"--curve {name} does not behave as --curve {curve} (exit {rc})")
+        for name in ["bn-254", "bn 254", "bn2540", "bls12-381", "bls12381", "bls12_3810", "goldilock", "goldilockss", "secp256k1", "", "BN254 "]:
+            rc, out, err = run_cli(exe, ["--curve", name, os.path.join(d, "table.circom")], d)
+            evals += 1
+            nontrivial += 1
+            if rc in (0, 1):
+                add(f"name:{name or 'empty'}", {"curve": name}, f"--curve `{name}` was accepted (exit {rc}); only the three curve names (in any case) may be")
+    finally:
+        shutil.rmtree(d, ignore_errors=True)
+    return {"unit": "e2e-curves", "evaluations": evals, "distinct_nontrivial": nontrivial, "exhaustive": True,
+            "rule": "the real CLI: (a) every template of the documented table (Circomlib spelling) and near-miss names instantiated under each curve: flagged as BN254-specific exactly when the table marks the pair; (b) Num2Bits(n)/Bits2Num(n) under the default curve: flagged unless n is a constant < 254; (c) LessThan inputs range-checked by Num2Bits(k) under each curve: accepted iff k < bits(p) - 1; (d) curve names in any case behave as the canonical name, other strings are rejected",
+            "bound": ("n, k in 0..300" if tier == "thorough" else "n, k at and around the thresholds (0, 1, 63..65, 252..256, bits-3..bits+1, 300)") + "; 26 table rows + near misses x 3 curves; 9 accepted and 11 rejected curve spellings; plus non-constant sizes",
+            "samples": samples, "violations": viol}
+
+
 def main():
     suite, tier, seed = sys.argv[1], (sys.argv[2] if len(sys.argv) > 2 else "quick"), int(sys.argv[3]) if len(sys.argv) > 3 else 0
     try:
@@ -366,7 +512,7 @@ def main():
     except Exception as e:
         print(json.dumps({"error": str(e)}))
         return
-    r = {"tuples": suite_tuples, "output": suite_output, "values": suite_values}[suite](exe, tier, seed)
+    r = {"tuples": suite_tuples, "output": suite_output, "values": suite_values, "curves": suite_curves}[suite](exe, tier, seed)
     print(json.dumps(r))
 
 if __name__ == "__main__":
